@@ -360,6 +360,9 @@ def handle_calibration(col, case, failed_kinds):
 # ---------------------------------------------------------------------------------------------
 # deterministic sweep: every link kind alone
 
+TRIPLE_KINDS = ["param", "return", "call_id", "field", "binop_r"]
+
+
 def sweep_specs(avoid_kinds):
     src = next(k for k in BASE_SRC_ORDER if ("src:" + k) not in avoid_kinds)
     specs = []
@@ -411,6 +414,11 @@ def sweep_specs(avoid_kinds):
     add("family:free-variable", {"links": [{"k": "closure"}, {"k": "assign"}]})
     add("family:free-variable/closure", {"pre": [{"kind": "func"}], "links": [{"k": "closure"}, {"k": "assign"}]})
     add("family:try-body-def>loop", {"links": [{"k": "try_body"}, {"k": "for_body"}]})
+    # compositions of three links around function boundaries, source two calls deep (each item is its own class:
+    # the list is fixed, so its signatures do not depend on the seed)
+    import itertools
+    for seq in itertools.product(TRIPLE_KINDS, repeat=3):
+        add("triple:" + ">".join(seq), {"pre": [{"kind": "func"}, {"kind": "func"}], "links": [{"k": k} for k in seq]})
     return specs
 
 
@@ -439,6 +447,8 @@ def sweep_shard(arg):
         spec["avoid"] = sorted(a for a in avoid if a.startswith(("src:", "snk:")))
         case = tg.render(spec)
         case["spec"] = spec
+        if name.startswith("triple:"):
+            case["sig_hint"] = ["sweep-triple", name[7:]]
         ds, info = check_case(case, budget=budget, memo=memo)
         col.case()
         col.label("sweep")
